@@ -8,6 +8,7 @@ materialisation step replaces buffer, geometry and flag together.  Not decided: 
 is well-typed, values.
 """
 import ast
+from ..terms import is_const as is_const_
 from ..lib import Toolkit
 from ..terms import alts, attr_chain, walk, is_const
 from ..coherence import Coherence, report, report_raw_access
@@ -74,14 +75,38 @@ def C10_allow(tm):
     return None
 
 
+def _stored_term(fa, n, selfn, attr):
+    """term of the value stored into self.<attr> by assignment statement n (tuple targets unpacked)"""
+    from ..terms import T
+    for tg in n.ast.targets:
+        if isinstance(tg, ast.Attribute) and tg.attr == attr and isinstance(tg.value, ast.Name) and tg.value.id == selfn:
+            return fa.term(n.ast.value, n)
+        if isinstance(tg, (ast.Tuple, ast.List)):
+            for i, e in enumerate(tg.elts):
+                if isinstance(e, ast.Attribute) and e.attr == attr and isinstance(e.value, ast.Name) and e.value.id == selfn:
+                    if isinstance(n.ast.value, (ast.Tuple, ast.List)) and len(n.ast.value.elts) == len(tg.elts):
+                        return fa.term(n.ast.value.elts[i], n)
+                    return T("item", (fa.term(n.ast.value, n), i), n.ast.value)
+    return fa.term(n.ast.value, n)
+
+
 def materialisation_step(ctx, tk, coh):
-    f = ctx.func("raggedarray.base.RaggedBase._flatten_myself")
+    # the function that replaces buffer, geometry and flag is found by what it does, not by its name (it may have been
+    # inlined into ravel() or delegate the gather to a helper)
+    cores = coh.ts.core_materialisers()
+    if not cores:
+        from ..model import AnalysisError
+        raise AnalysisError("no function of the RaggedBase hierarchy stores buffer, geometry and contiguity flag (materialisation step not found)")
+    f = cores[0]
     fa = ctx.fa(f)
     selfn = f.params[0]
     stores = {}
     for n in fa.cfg.stmts():
         if n.kind == "stmt" and isinstance(n.ast, ast.Assign):
+            tgs = []
             for tg in n.ast.targets:
+                tgs += list(tg.elts) if isinstance(tg, (ast.Tuple, ast.List)) else [tg]
+            for tg in tgs:
                 if isinstance(tg, ast.Attribute) and isinstance(tg.value, ast.Name) and tg.value.id == selfn:
                     stores.setdefault(tg.attr, []).append(n)
     what = "materialisation replaces the buffer, the geometry and the contiguity flag together on every path that does not return early"
@@ -111,7 +136,7 @@ def materialisation_step(ctx, tk, coh):
             ctx.decide("C06.e", f, "materialisation is skipped only when the geometry is not a lazy view", True if okr else None, node=r.ast, key="early-return", engine="E1")
     # new data = old data gathered at the indices that come with the new geometry; flag set to True
     for n in stores["__data"]:
-        tm = fa.term(n.ast.value, n)
+        tm = _stored_term(fa, n, selfn, "__data")
         ok = tm.k == "sub" and attr_chain(tm.a[0]) == (selfn, "__data") and tm.a[1].k == "item" and tm.a[1].a[1] == 0 \
             and tm.a[1].a[0].k == "call" and tm.a[1].a[0].a[0].k == "attr" and tm.a[1].a[0].a[0].a[1] == "get_flat_indices"
         ctx.decide("C06.e", f, "the new buffer is the old buffer gathered at the view's flat indices", True if ok else None, node=n.ast, key="gather", engine="E5")
@@ -121,15 +146,15 @@ def materialisation_step(ctx, tk, coh):
                    "`%s` may be a basic slice of the parent's buffer (a numpy view): assigning into the derived array then alters its source" % (tm,),
                    node=n.ast, key="owned", engine="E3")
     for n in stores["_shape"]:
-        tm = fa.term(n.ast.value, n)
+        tm = _stored_term(fa, n, selfn, "_shape")
         ok = tm.k == "item" and tm.a[1] == 1 and tm.a[0].k == "call" and tm.a[0].a[0].k == "attr" and tm.a[0].a[0].a[1] == "get_flat_indices"
         bad = tm.k == "item" and tm.a[1] == 0
         ctx.decide("C06.e", f, "the new geometry is the one returned together with the gather indices", True if ok else (False if bad else None),
                    "geometry is assigned %s" % (tm,), node=n.ast, key="geometry", engine="E5")
     for n in stores["is_contigous"]:
-        v = n.ast.value
-        ctx.decide("C06.e", f, "the contiguity flag is set to True by the materialisation", isinstance(v, ast.Constant) and v.value is True,
-                   "flag set to %s" % ast.unparse(v), node=n.ast, key="flag", engine="E1")
+        v = _stored_term(fa, n, selfn, "is_contigous")
+        ctx.decide("C06.e", f, "the contiguity flag is set to True by the materialisation", True if is_const_(v, True) else (False if v.k == "const" else None),
+                   "flag set to %s" % (v,), node=n.ast, key="flag", engine="E1")
     # ravel returns the buffer after materialising; base constructor flags views as non-contiguous
     b = ctx.func("raggedarray.base.RaggedBase.__init__")
     ba = ctx.fa(b)
